@@ -125,6 +125,24 @@ Theorem C10_first_missing_key_sorted_perm_invariant :
 Proof. exact first_missing_key_sorted_perm_invariant_lemma. Qed.
 Print Assumptions C10_first_missing_key_sorted_perm_invariant.
 
+(* Error accumulation over the entries of a literal (per-key type errors,
+   unexpected fields, unresolved references ...): after the repair the entries
+   are visited in sorted key order, so the ErrorList - and the message text -
+   is the same for any traversal order; the loop as it was is refuted. *)
+Theorem C10_error_list_perm_invariant :
+  forall (A E : Type) (chk : bytes -> A -> option E) (l l' : list (bytes * A)),
+  Permutation l l' -> NoDup (map fst l) ->
+  collect_errors_sorted chk l = collect_errors_sorted chk l'.
+Proof. exact error_list_perm_invariant_lemma. Qed.
+Print Assumptions C10_error_list_perm_invariant.
+
+Theorem C10_error_list_unsorted_refuted :
+  exists (chk : bytes -> bool -> option bytes) (l l' : list (bytes * bool)),
+    Permutation l l' /\ NoDup (map fst l) /\
+    collect_errors chk l <> collect_errors chk l'.
+Proof. exact error_list_unsorted_refuted_lemma. Qed.
+Print Assumptions C10_error_list_unsorted_refuted.
+
 (* Non-vacuity: a struct literal with a nested map, in two different insertion
    orders at both levels, meets the hypotheses, and the model gives the same
    non-trivial text for both. *)
